@@ -17,9 +17,9 @@ from qrv import tensors
 LEVEL = "exploration"
 RULE = ("aggregates of 2-4 sites (thorough 2-5; time-dependent tensors 2-3 resp. 2-4), energies 10000-16000 1/cm with spreads 0-600, couplings 5-300 1/cm incl. "
         "exactly zero and exactly degenerate sites, per-site or shared overdamped baths (quantum / high-temperature), lambda 5-150 1/cm, tau 20-200 fs, T 60-400 K; "
-        "21 (theory, option) configurations: standard/TD Redfield (tensor, operator form, secular, cut-off time), Foerster and TD Foerster, combined "
+        "24 (theory, option) configurations: standard/TD Redfield (tensor, operator form, secular, cut-off time), Foerster and TD Foerster, combined "
         "Redfield-Foerster (cut-off below/between/above the couplings, secular, TD), Lindblad forms with 1-3 random real operators (projector, ladder, dense, "
-        "diagonal) incl. zero rates, through OpenSystem and through direct constructors. distinct = (configuration, N, rounded parameters); non-trivial iff "
+        "diagonal) incl. zero rates, electronic Lindblad forms on vibronic aggregates, through OpenSystem and through direct constructors. distinct = (configuration, N, rounded parameters); non-trivial iff "
         "the tensor has a non-zero population-transfer element and, for non-secular theories, a non-zero element outside the secular pattern.")
 ASSUMPTIONS = ["modified-Redfield and non-equilibrium Foerster classes are not in the statement's list (and do not import cleanly per BASELINE): not monitored",
                "identities are evaluated with tolerance 1e-13 * max|R| * N^2 (rounding of the basis transformations)"]
@@ -133,6 +133,8 @@ def run_case(case, ctx):
                 R.convert_2_tensor()
             Tc = numpy.array(R.data, copy=True)
         identities(ctx, Tc, det, ".data after convert_2_tensor")
+        if ref is None:
+            ref = Tc
         if not td:
             ctx.check("apply==data", float(numpy.max(numpy.abs(Tc - ref))), 1e-13 * max(float(numpy.max(numpy.abs(Tc))), 1e-300) * dim * dim,
                       dict(det, observed="converted tensor vs apply() before conversion"))
@@ -182,6 +184,11 @@ def run_case(case, ctx):
     else:
         nontriv_ns = None
 
+    if ops_form and td:
+        with ctx.lib("reading the converted TD tensor inside eigenbasis_of(H)", mechanism=None):
+            with (qr.eigenbasis_of(hsec) if hsec is not None else contextlib.nullcontext()):
+                ref_sec = numpy.array(R.data, copy=True)
+        identities(ctx, ref_sec, det, ".data after convert_2_tensor, inside eigenbasis_of(H)")
     Tn = ref_sec if ref_sec is not None else ref
     sc = max(float(numpy.max(numpy.abs(Tn))), 1e-300)
     poptr = 0.0
